@@ -8,7 +8,7 @@ NA = {
  "C01": "Soundness of emitted matches is an invariant over the whole run history of SaseEngine (FxHashMap<String,Arc<Event>> captures, Instant, NFA built at run time); no per-function contract carries it and CBMC cannot carry hash-map lookups here (measured), so Kani on process() would be bounded symbolic testing of the engine, not a contract.",
  "C02": "Completeness/earliest-match against a reference semantics over all streams; same engine state as C01, outside both verifiers.",
  "C04": "Partition independence is an equivalence between two whole-engine executions (hash-partitioned state); not a per-call contract.",
- "C05": "handle_backpressure is a method of SaseEngine, whose 25 fields (NFA, event-type index, metrics Arc, hash maps) would have to be assembled by hand inside a Kani harness and whose Run values carry FxHashMap / KleeneCapture drop glue; the partitioned variant needs entry().or_default() on a hash map (measured out of CBMC's reach); Verus cannot take the closures/iterator chains. The provisional plan of the design round was dropped rather than weakened to a toy.",
+ "C05": "handle_backpressure is a method of SaseEngine, whose 25 fields (NFA, event-type index, metrics Arc, hash maps) have to be assembled by hand inside a Kani harness and whose Run values carry FxHashMap / KleeneCapture drop glue. MEASURED on the cells written for it (contracts/kani/c05.rs.dropped, max_runs 1..=3): EvictOldest, EvictLeastProgress and Sample did not finish in 900 s at 6 GB each, the Error strategy reached 35 GB of CBMC memory after 165 s (62 GB machine, no swap) and was stopped; the partitioned variant additionally needs entry().or_default() on a hash map. Verus cannot take the closures / iterator chains (min_by_key, retain). No bounded native stand-in is offered either: the property is an invariant over whole matcher runs, not over this one function.",
  "C14": "Float reductions up to rounding; the path that runs on this hardware is AVX2 intrinsics behind is_x86_feature_detected! (unsupported by both verifiers); proving only scalar fallbacks would certify code that does not execute.",
  "C15": "Join correctness is a property of arrival histories over nested hash maps + a binary heap + chrono; outside both verifiers (hash maps measured out of reach).",
  "C16": "Equivalence of whole-engine executions across entry points (async Engine, channels, tokio).",
